@@ -9,6 +9,7 @@ package main
 import (
 	"fmt"
 	"regexp"
+	"sync"
 	"runtime"
 	"strings"
 	"sync/atomic"
@@ -24,7 +25,8 @@ type c08Evt struct {
 }
 
 type c08Ctl struct {
-	cur    int // thread currently released; a thread that calls the yield hook is always this one
+	cur    int      // thread currently released (for the clone log of committer 0)
+	tids   sync.Map // goroutine id -> thread id: a thread that reaches a yield point is identified by its goroutine
 	resume []chan struct{}
 	events chan c08Evt
 	cstep  int // steps executed by the committer (thread 0)
@@ -39,7 +41,11 @@ func init() {
 		if ctl == nil {
 			return
 		}
-		t := ctl.cur
+		v, ok := ctl.tids.Load(c08Goid())
+		if !ok {
+			return
+		}
+		t := v.(int)
 		ctl.events <- c08Evt{t: t, point: point}
 		<-ctl.resume[t]
 	}
@@ -70,8 +76,11 @@ func c08BlockedOnMutex(id string) bool {
 	return false
 }
 
-func c08RunConcHook(w *scWorld, b *scBH, threads []c08Thread, sched string) (results []string, trace []string, clones []c08Clone, errs string) {
-	n := 1 + len(threads)
+func c08RunConcHook(w *scWorld, bs []*scBH, threads []c08Thread, sched string) (results []string, trace []string, clones []c08Clone, errs string) {
+	b := bs[0]
+	m := len(bs)
+	n := m + len(threads)
+	lockWaiting := make([]bool, n) // committer blocked inside sc.lock.Lock(): proceeds to its first yield point by itself
 	ctl := &c08Ctl{resume: make([]chan struct{}, n), events: make(chan c08Evt, n)}
 	for i := range ctl.resume {
 		ctl.resume[i] = make(chan struct{})
@@ -116,23 +125,58 @@ func c08RunConcHook(w *scWorld, b *scBH, threads []c08Thread, sched string) (res
 			}
 		}
 	}
-	launch := func(t int, body func() string) bool {
+	// launch starts the thread's goroutine and waits until it is parked at its first yield point — or, for a committer,
+	// blocked inside sc.lock.Lock() because another commit is in flight
+	launch := func(t int, body func() string, mayBlock bool) bool {
 		ctl.cur = t
 		launched[t] = true
+		idCh := make(chan string, 1)
 		go func() {
+			id := c08Goid()
+			ctl.tids.Store(id, t)
+			idCh <- id
 			r := guard(body)
 			results[t] = r
 			ctl.events <- c08Evt{t: t, done: true}
 		}()
-		return waitFor(t)
+		id := <-idCh
+		if !mayBlock {
+			return waitFor(t)
+		}
+		deadline := time.Now().Add(2 * time.Second)
+		for i := 0; ; i++ {
+			select {
+			case e := <-ctl.events:
+				note(e)
+				if e.t == t {
+					return true
+				}
+			default:
+			}
+			if i%8 == 7 && c08BlockedOnMutex(id) {
+				lockWaiting[t] = true
+				return true
+			}
+			if time.Now().After(deadline) {
+				errs = fmt.Sprintf("committer thread %d neither reached a yield point nor blocked on a mutex within 2s", t)
+				return false
+			}
+			runtime.Gosched()
+			if i > 64 {
+				time.Sleep(20 * time.Microsecond)
+			}
+		}
 	}
-	if !launch(0, func() string { b.bc.Commit(); return "ok" }) {
-		return
+	for i := range bs {
+		bi := bs[i]
+		if !launch(i, func() string { bi.bc.Commit(); return "ok" }, i > 0) {
+			return
+		}
 	}
 	for i, th := range threads {
 		th := th
 		if th.kind == "get" {
-			if !launch(i+1, func() string { return w.outGet(w.sc.Get(th.key, th.hash)) }) {
+			if !launch(i+m, func() string { return w.outGet(w.sc.Get(th.key, th.hash)) }, false) {
 				return
 			}
 		}
@@ -140,7 +184,7 @@ func c08RunConcHook(w *scWorld, b *scBH, threads []c08Thread, sched string) (res
 	// a writer has a single step: the whole call. It never reaches a yield point; it either returns or blocks on the
 	// block cache's mutex until the commit returns.
 	stepWriter := func(t int) bool {
-		th := threads[t-1]
+		th := threads[t-m]
 		launched[t] = true
 		trace = append(trace, fmt.Sprintf("%d:write", t))
 		idCh := make(chan string, 1)
@@ -191,8 +235,21 @@ func c08RunConcHook(w *scWorld, b *scBH, threads []c08Thread, sched string) (res
 		}
 		return true
 	}
+	collectLockWaiting := func() bool {
+		for t := 1; t < m; t++ {
+			if lockWaiting[t] {
+				// sc.lock has been released: the blocked committer takes it and runs to its first yield point
+				if !waitFor(t) {
+					return false
+				}
+				lockWaiting[t] = false
+				return true // only one of them can have got the lock
+			}
+		}
+		return true
+	}
 	step := func(t int) bool {
-		if t > 0 && threads[t-1].kind != "get" {
+		if t >= m && threads[t-m].kind != "get" {
 			return stepWriter(t)
 		}
 		ctl.cur = t
@@ -206,15 +263,20 @@ func c08RunConcHook(w *scWorld, b *scBH, threads []c08Thread, sched string) (res
 		}
 		if t == 0 && finished[0] {
 			// the commit returned: writers that were blocked on the block cache's mutex run now
-			return collectWaiting()
+			if !collectWaiting() {
+				return false
+			}
+		}
+		if t < m && finished[t] {
+			return collectLockWaiting()
 		}
 		return true
 	}
 	runnable := func(t int) bool {
-		if finished[t] || waiting[t] {
+		if finished[t] || waiting[t] || lockWaiting[t] {
 			return false
 		}
-		if t > 0 && threads[t-1].kind != "get" && launched[t] {
+		if t >= m && threads[t-m].kind != "get" && launched[t] {
 			return false
 		}
 		return true
